@@ -363,7 +363,7 @@ func c05Run(R *vr.Result, mon *c05Mon, sock string, c c05Case) {
 		R.Count("ended_by_close", 1)
 		return
 	}
-	uc.CloseWrite() //nolint:errcheck
+	uc.CloseWrite()                                      //nolint:errcheck
 	uc.SetReadDeadline(time.Now().Add(60 * time.Second)) //nolint:errcheck
 	reply, rerr := io.ReadAll(uc)
 	uc.Close() //nolint:errcheck
